@@ -22,7 +22,7 @@ import (
 	"verif/internal/ev"
 )
 
-var nameAlphabet = []string{"a", "0", ".", "_", "+", "-", "#", "[", "]", "<", ">"}
+var nameAlphabet = []string{"a", "A", "0", ".", "_", "+", "-", "#", "[", "]", "<", ">"} // (names are case-sensitive: "a" and "A" are different chains)
 
 func allNames() []string {
 	var out []string
@@ -192,6 +192,8 @@ func Keys(r *ev.Run, tier string) (evals, nontrivial int64) {
 		return ps
 	})
 
+	evals += PointLookups(r, h, "C19")
+
 	// heights: per-byte exhaustive; key injectivity and read-back through every client's iterators
 	var heights []clienttypes.Height
 	for k := uint(0); k < 8; k++ {
@@ -337,5 +339,74 @@ func Keys(r *ev.Run, tier string) (evals, nontrivial int64) {
 			nontrivial += int64(len(w))
 		}
 	}
+	return
+}
+
+// PointLookups: a receipt / acknowledgement / commitment / client written for one name is found under exactly that name —
+// not under the name in another letter case, with surrounding blanks, or under other names (violations carry the given
+// property id: the exactly-once guard of C01 rests on these look-ups as much as C19's read-back clause does).
+func PointLookups(r *ev.Run, h *c07.Host, prop string) (n int64) {
+	pk := h.C.App.XIBCKeeper.PacketKeeper
+		lctx := h.Ctx(time.Unix(1_700_000_000, 0))
+		lck := h.C.App.XIBCKeeper.ClientKeeper
+		type pr struct{ a, b string }
+		pairs := []pr{{"Teleport-A", "chain-b"}, {"chain-b", "ETH"}, {"aB", "Ab"}, {"x.y", "X.Y"}}
+		bad := 0
+		for _, p := range pairs {
+			pk.SetPacketReceipt(lctx, p.a, p.b, 7)
+			pk.SetPacketAcknowledgement(lctx, p.a, p.b, 7, []byte("ack-hash"))
+			pk.SetPacketCommitment(lctx, p.a, p.b, 7, []byte("commitment-hash"))
+			lck.SetClientState(lctx, p.a, &tsstypes.ClientState{TssAddress: "cosmos1qypqxpq9qcrsszg2pvxq6rs0zqg3yyc5lzv7xu"})
+		}
+		variants := func(n string) []string {
+			return []string{strings.ToLower(n), strings.ToUpper(n), " " + n, n + " "}
+		}
+		for _, p := range pairs {
+			n++
+			if _, ok := pk.GetPacketReceipt(lctx, p.a, p.b, 7); !ok || !pk.HasPacketAcknowledgement(lctx, p.a, p.b, 7) || !pk.HasPacketCommitment(lctx, p.a, p.b, 7) {
+				r.Violation(prop+":written-packet-record-not-found-under-its-own-triple", fmt.Sprintf("(%s,%s,7)", p.a, p.b), nil)
+				bad++
+			}
+			if _, ok := lck.GetClientState(lctx, p.a); !ok {
+				r.Violation(prop+":written-client-not-found-under-its-own-name", p.a, nil)
+				bad++
+			}
+			written := map[string]bool{}
+			for _, q := range pairs {
+				written[q.a+"|"+q.b] = true
+			}
+			for _, va := range variants(p.a) {
+				for _, vb := range variants(p.b) {
+					if written[va+"|"+vb] {
+						continue
+					}
+					n++
+					_, rc := pk.GetPacketReceipt(lctx, va, vb, 7)
+					if rc || pk.HasPacketAcknowledgement(lctx, va, vb, 7) || pk.HasPacketCommitment(lctx, va, vb, 7) || func() bool { _, ok := pk.GetPacketAcknowledgement(lctx, va, vb, 7); return ok }() {
+						if bad == 0 {
+							r.Violation(prop+":packet-record-found-under-another-triple", fmt.Sprintf("written for (%q,%q,7), found under (%q,%q,7)", p.a, p.b, va, vb), nil)
+						}
+						bad++
+					}
+				}
+				if va != p.a {
+					isOther := false
+					for _, q := range pairs {
+						if q.a == va {
+							isOther = true
+						}
+					}
+					if _, ok := lck.GetClientState(lctx, va); ok && !isOther {
+						if bad == 0 {
+							r.Violation(prop+":client-found-under-another-name", fmt.Sprintf("written for %q, found under %q", p.a, va), nil)
+						}
+						bad++
+					}
+				}
+			}
+		}
+		if bad == 0 {
+			r.Outcome("point look-ups find packet records and clients under exactly the names they were written for")
+		}
 	return
 }
